@@ -357,6 +357,8 @@ int convert_msa_to_internal(struct msa* msa, int type)
                                 WARNING_MSG("there should be no character not matching the alphabet");
                                 WARNING_MSG("offending character: >>>%c<<<", seq->seq[j]);
                                 /* exit(0); */
+                                /* treat it as the ambiguity code (N / X), which is the last code of every alphabet */
+                                seq->s[j] = msa->L - 1;
                         }else{
                                 seq->s[j] = t[(int) seq->seq[j]];
                         }
